@@ -14,6 +14,7 @@ import Vipnode.Drv.Persist
 import Vipnode.Drv.Conc
 import Vipnode.Drv.NonceTtl
 import Vipnode.Drv.PoolBin
+import Vipnode.Drv.Cache
 open Vipnode Vipnode.Drv
 
 structure DState where
@@ -25,6 +26,7 @@ structure DState where
   rpc : Rpc := {}
   persist : PersistDrv := {}
   poolbin : PoolBinDrv := {}
+  cache : CacheDrv := {}
 
 def stepLine (st : DState) (line : String) : DState × String :=
   let toks := (line.trimAscii.toString.splitOn " ").filter (· ≠ "")
@@ -46,6 +48,7 @@ def stepLine (st : DState) (line : String) : DState × String :=
   | "persist" :: args => let (s, o) := persistStep st.persist args; ({ st with persist := s }, o)
   | "rpc" :: args => let (s, o) := rpcStep st.rpc args; ({ st with rpc := s }, o)
   | "ethrpc" :: args => (st, ethRpcStep args)
+  | "cache" :: args => let (s, o) := cacheStep st.cache args; ({ st with cache := s }, o)
   | "agentlife" :: args => let (s, o) := lifeDrvStep st.life args; ({ st with life := s }, o)
   | ["noop"] => (st, "noop")
   | [] => (st, "")
